@@ -15,10 +15,94 @@ SchemaPayloads2T == [
       ReqS("revocation_reason", "REVOCATION_REASON", "RevocationReason"),
       Opt("compromise_occurrence_date", "COMPROMISE_OCCURRENCE_DATE", "date") >>,
   RevokeResponsePayload |-> <<
-      Req("unique_identifier", "UNIQUE_IDENTIFIER", "text") >>
+      Req("unique_identifier", "UNIQUE_IDENTIFIER", "text") >>,
+  \* --- Destroy (1.0 4.20 / 1.1+ 4.21) --------------------------------------
+  DestroyRequestPayload |-> <<
+      Opt("unique_identifier", "UNIQUE_IDENTIFIER", "text") >>,
+  DestroyResponsePayload |-> <<
+      Req("unique_identifier", "UNIQUE_IDENTIFIER", "text") >>,
+  \* --- Archive (1.0 4.21 / 1.1+ 4.22) --------------------------------------
+  ArchiveRequestPayload |-> <<
+      Opt("unique_identifier", "UNIQUE_IDENTIFIER", "text") >>,
+  ArchiveResponsePayload |-> <<
+      Req("unique_identifier", "UNIQUE_IDENTIFIER", "text") >>,
+  \* --- Recover (1.0 4.22 / 1.1+ 4.23) --------------------------------------
+  RecoverRequestPayload |-> <<
+      Opt("unique_identifier", "UNIQUE_IDENTIFIER", "text") >>,
+  RecoverResponsePayload |-> <<
+      Req("unique_identifier", "UNIQUE_IDENTIFIER", "text") >>,
+  \* --- Cancel (1.0 4.25 / 1.1+ 4.27) ---------------------------------------
+  CancelRequestPayload |-> <<
+      Req("asynchronous_correlation_value", "ASYNCHRONOUS_CORRELATION_VALUE", "bytes") >>,
+  CancelResponsePayload |-> <<
+      Req("asynchronous_correlation_value", "ASYNCHRONOUS_CORRELATION_VALUE", "bytes"),
+      ReqE("cancellation_result", "CANCELLATION_RESULT", "CancellationResult") >>,
+  \* --- Poll (1.0 4.26 / 1.1+ 4.28); the response is the polled operation's response
+  PollRequestPayload |-> <<
+      Req("asynchronous_correlation_value", "ASYNCHRONOUS_CORRELATION_VALUE", "bytes") >>,
+  \* --- Check (1.0 4.9 / 1.1+ 4.10) -----------------------------------------
+  CheckRequestPayload |-> <<
+      Opt("unique_identifier", "UNIQUE_IDENTIFIER", "text"),
+      Opt("usage_limits_count", "USAGE_LIMITS_COUNT", "long"),
+      Opt("cryptographic_usage_mask", "CRYPTOGRAPHIC_USAGE_MASK", "mask"),
+      Opt("lease_time", "LEASE_TIME", "interval") >>,
+  CheckResponsePayload |-> <<
+      Req("unique_identifier", "UNIQUE_IDENTIFIER", "text"),
+      Opt("usage_limits_count", "USAGE_LIMITS_COUNT", "long"),
+      Opt("cryptographic_usage_mask", "CRYPTOGRAPHIC_USAGE_MASK", "mask"),
+      Opt("lease_time", "LEASE_TIME", "interval") >>,
+  \* --- Get (1.0 4.10 / 1.1+ 4.11) ------------------------------------------
+  \* KMIP 1.4 and 2.0 define Key Wrap Type (enumeration, optional) between Key Format Type and Key Compression
+  \* Type; GetRequestPayload has no constructor argument for it, so the field is left out.
+  GetRequestPayload |-> <<
+      Opt("unique_identifier", "UNIQUE_IDENTIFIER", "text"),
+      OptE("key_format_type", "KEY_FORMAT_TYPE", "KeyFormatType"),
+      OptE("key_compression_type", "KEY_COMPRESSION_TYPE", "KeyCompressionType"),
+      OptS("key_wrapping_specification", "KEY_WRAPPING_SPECIFICATION", "KeyWrappingSpecification") >>,
+  \* the managed object is a structure under its own tag (Symmetric Key, Certificate, ...), of the class that
+  \* Object Type names
+  GetResponsePayload |-> <<
+      ReqE("object_type", "OBJECT_TYPE", "ObjectType"),
+      Req("unique_identifier", "UNIQUE_IDENTIFIER", "text"),
+      F("secret", "", "union", "", "1", 10, 20) >>,
+  \* --- Get Usage Allocation (1.0 4.14 / 1.1+ 4.15) -------------------------
+  GetUsageAllocationRequestPayload |-> <<
+      Opt("unique_identifier", "UNIQUE_IDENTIFIER", "text"),
+      Req("usage_limits_count", "USAGE_LIMITS_COUNT", "long") >>,
+  GetUsageAllocationResponsePayload |-> <<
+      Req("unique_identifier", "UNIQUE_IDENTIFIER", "text") >>,
+  \* --- Obtain Lease (1.0 4.13 / 1.1+ 4.14) ---------------------------------
+  ObtainLeaseRequestPayload |-> <<
+      Opt("unique_identifier", "UNIQUE_IDENTIFIER", "text") >>,
+  ObtainLeaseResponsePayload |-> <<
+      Req("unique_identifier", "UNIQUE_IDENTIFIER", "text"),
+      Req("lease_time", "LEASE_TIME", "interval"),
+      Req("last_change_date", "LAST_CHANGE_DATE", "date") >>,
+  \* --- Locate (1.0 4.8 / 1.1+ 4.9) -----------------------------------------
+  \* 1.x: the attributes to match are repeated Attribute structures, directly in the payload.  2.0 replaces
+  \* them by ONE Attributes structure (children typed and tagged by attribute name): kind "attrs".
+  LocateRequestPayload |-> <<
+      Opt("maximum_items", "MAXIMUM_ITEMS", "int"),
+      Since(Opt("offset_items", "OFFSET_ITEMS", "int"), 13),
+      Opt("storage_status_mask", "STORAGE_STATUS_MASK", "mask"),
+      Since(OptE("object_group_member", "OBJECT_GROUP_MEMBER", "ObjectGroupMember"), 11),
+      F("attributes", "ATTRIBUTE", "attrs", "", "*", 10, 20) >>,
+  LocateResponsePayload |-> <<
+      Since(Opt("located_items", "LOCATED_ITEMS", "int"), 13),
+      Many("unique_identifiers", "UNIQUE_IDENTIFIER", "text") >>
 ]
 ClassTagPayloads2 == [
   ActivateRequestPayload |-> "REQUEST_PAYLOAD", ActivateResponsePayload |-> "RESPONSE_PAYLOAD",
-  RevokeRequestPayload |-> "REQUEST_PAYLOAD", RevokeResponsePayload |-> "RESPONSE_PAYLOAD" ]
+  RevokeRequestPayload |-> "REQUEST_PAYLOAD", RevokeResponsePayload |-> "RESPONSE_PAYLOAD",
+  DestroyRequestPayload |-> "REQUEST_PAYLOAD", DestroyResponsePayload |-> "RESPONSE_PAYLOAD",
+  ArchiveRequestPayload |-> "REQUEST_PAYLOAD", ArchiveResponsePayload |-> "RESPONSE_PAYLOAD",
+  RecoverRequestPayload |-> "REQUEST_PAYLOAD", RecoverResponsePayload |-> "RESPONSE_PAYLOAD",
+  CancelRequestPayload |-> "REQUEST_PAYLOAD", CancelResponsePayload |-> "RESPONSE_PAYLOAD",
+  PollRequestPayload |-> "REQUEST_PAYLOAD",
+  CheckRequestPayload |-> "REQUEST_PAYLOAD", CheckResponsePayload |-> "RESPONSE_PAYLOAD",
+  GetRequestPayload |-> "REQUEST_PAYLOAD", GetResponsePayload |-> "RESPONSE_PAYLOAD",
+  GetUsageAllocationRequestPayload |-> "REQUEST_PAYLOAD", GetUsageAllocationResponsePayload |-> "RESPONSE_PAYLOAD",
+  ObtainLeaseRequestPayload |-> "REQUEST_PAYLOAD", ObtainLeaseResponsePayload |-> "RESPONSE_PAYLOAD",
+  LocateRequestPayload |-> "REQUEST_PAYLOAD", LocateResponsePayload |-> "RESPONSE_PAYLOAD" ]
 ClassSincePayloads2 == [ x \in {} |-> <<10, 20>> ]
 =============================================================================
